@@ -540,25 +540,32 @@ func (c *VCheck) relQueries(ids []string, preds []string, scopes [][]string) []r
 // predicates to the query's start entity. This is the input class of the
 // recorded known finding; any other mismatch is reported normally.
 func (h *VHist) onlyMultiPredSources(q relQuery, got map[string]int, want map[string]bool) bool {
+	// the (target, source) pair is what the implementation keys its deleted flag on: all versions of the source in all
+	// datasets of the scope count (q removed in A while B still carries p shows the same defect)
 	multi := map[string]bool{}
+	predsOf := map[string]map[string]bool{}
 	for _, d := range h.M.LiveInOrder() {
 		if len(q.Scope) > 0 && !containsStr(q.Scope, d.Name) {
 			continue
 		}
 		for id, vs := range d.Versions {
-			preds := map[string]bool{}
+			if predsOf[id] == nil {
+				predsOf[id] = map[string]bool{}
+			}
 			for _, v := range vs {
 				for p, ts := range v.C.RefTargets() {
 					for _, t := range ts {
 						if t == q.Start {
-							preds[p] = true
+							predsOf[id][p] = true
 						}
 					}
 				}
 			}
-			if len(preds) >= 2 {
-				multi[id] = true
-			}
+		}
+	}
+	for id, preds := range predsOf {
+		if len(preds) >= 2 {
+			multi[id] = true
 		}
 	}
 	src := func(k string) string { return k[strings.Index(k, ">")+1:] }
